@@ -4,6 +4,8 @@ import (
 	"fmt"
 	"go/ast"
 	"go/constant"
+	"go/importer"
+	"go/parser"
 	"go/token"
 	"go/types"
 	"regexp"
@@ -51,6 +53,7 @@ func runC18(c *Config, r *Report) {
 	c18R7(prog, pk, r)
 	c18R8(prog, pk, r)
 	c18R9(prog, pk, r)
+	c18R10and11(prog, pk, r)
 	// the loop over scope names and the type switch over the object
 	var ts *ast.TypeSwitchStmt
 	var loop *ast.RangeStmt
@@ -920,4 +923,157 @@ func c18R9(prog *Prog, pk *packages.Package, r *Report) {
 	if !failed {
 		r.Pass("R18.9", "extract/no-big.Int-of-a-constant-mutated", "", fmt.Sprintf("%d mutating big.Int calls, none on a value returned by Rat.Denom/Num", n))
 	}
+}
+
+func init() {
+	ruleText["R18.10"] = "in package extract a type is spelled for the generated source only by go/types' writer with the package qualifier (types.TypeString / types.WriteType): no call of String() on a value implementing types.Type and no Name() on a *types.Basic - unsafe.Pointer is a basic type named \"Pointer\""
+	ruleText["R18.11"] = "package extract keeps nothing between extractions: outside package initialisation no function assigns a package-level variable, fills a map or slice held in one, or stores into a sync.Map - the literal of a constant also records the imports the generated file needs, so a remembered literal leaves the second file without them"
+}
+
+const c18Control = `package ctl
+import "go/types"
+func spell(t types.Type, b *types.Basic, q types.Qualifier) []string {
+	return []string{t.String(), b.Name(), types.TypeString(t, q), b.String()}
+}
+`
+
+// c18TypeSpellings lists the calls that spell a type without the qualifier.
+func c18TypeSpellings(info *types.Info, root ast.Node) []*ast.CallExpr {
+	var out []*ast.CallExpr
+	var typeIface *types.Interface
+	ast.Inspect(root, func(n ast.Node) bool {
+		c, ok := n.(*ast.CallExpr)
+		if !ok {
+			return true
+		}
+		se, ok := unparen(c.Fun).(*ast.SelectorExpr)
+		if !ok || (se.Sel.Name != "String" && se.Sel.Name != "Name") {
+			return true
+		}
+		f, ok := info.Uses[se.Sel].(*types.Func)
+		if !ok {
+			return true
+		}
+		rt := info.TypeOf(se.X)
+		if rt == nil {
+			return true
+		}
+		// go/types.Type, found through the method's package
+		if typeIface == nil && f.Pkg() != nil && f.Pkg().Path() == "go/types" {
+			if tn, ok := f.Pkg().Scope().Lookup("Type").(*types.TypeName); ok {
+				typeIface, _ = tn.Type().Underlying().(*types.Interface)
+			}
+		}
+		if typeIface == nil || f.Pkg() == nil || f.Pkg().Path() != "go/types" {
+			return true
+		}
+		if !types.Implements(rt, typeIface) {
+			return true
+		}
+		if se.Sel.Name == "Name" {
+			// Name() of a type: only *types.Basic has one among the implementations of Type
+			if p, ok := rt.(*types.Pointer); !ok || !isNamed(p.Elem(), "Basic") {
+				return true
+			}
+		}
+		out = append(out, c)
+		return true
+	})
+	return out
+}
+
+func c18R10and11(prog *Prog, pk *packages.Package, r *Report) {
+	info := pk.TypesInfo
+	// positive control
+	{
+		fset := token.NewFileSet()
+		f, err := parser.ParseFile(fset, "control.go", c18Control, 0)
+		if err != nil {
+			r.Errorf("R18.10 positive control does not parse: %v", err)
+			return
+		}
+		ci := &types.Info{Types: map[ast.Expr]types.TypeAndValue{}, Defs: map[*ast.Ident]types.Object{}, Uses: map[*ast.Ident]types.Object{}, Selections: map[*ast.SelectorExpr]*types.Selection{}}
+		if _, err := (&types.Config{Importer: importer.Default()}).Check("ctl", fset, []*ast.File{f}, ci); err != nil {
+			r.Errorf("R18.10 positive control does not type-check: %v", err)
+			return
+		}
+		if n := len(c18TypeSpellings(ci, f)); n != 3 {
+			r.Errorf("R18.10 positive control: matcher found %d unqualified spellings in the control snippet, want 3", n)
+			return
+		}
+		r.Note("R18.10 positive control: the matcher fires on the 3 unqualified spellings of the control snippet and not on types.TypeString")
+	}
+	nQual := 0
+	var bad []string
+	for _, file := range pk.Syntax {
+		for _, c := range c18TypeSpellings(info, file) {
+			bad = append(bad, types.ExprString(c)+" at "+prog.pos(c.Pos()))
+		}
+		ast.Inspect(file, func(n ast.Node) bool {
+			if c, ok := n.(*ast.CallExpr); ok && isCallTo(info, c, "go/types.TypeString", "go/types.WriteType") {
+				last := c.Args[len(c.Args)-1]
+				if id := identOf(last); id == nil || id.Name != "nil" {
+					nQual++
+				} else {
+					bad = append(bad, types.ExprString(c)+" at "+prog.pos(c.Pos())+" (nil qualifier)")
+				}
+			}
+			return true
+		})
+	}
+	if nQual < 2 {
+		r.Errorf("R18.10: only %d qualified type spellings (types.TypeString with a qualifier) found in package extract", nQual)
+		return
+	}
+	r.Check(len(bad) == 0, "R18.10", "extract/types-spelled-by-the-qualified-writer", "", fmt.Sprintf("%d spellings through types.TypeString with the package qualifier, none otherwise", nQual),
+		"package extract spells a type without go/types' qualified writer: "+strings.Join(bad, "; ")+". The name of a basic type is not always its spelling (unsafe.Pointer is the basic type \"Pointer\") and String() qualifies by full import path: the generated wrapper does not compile")
+	// R18.11
+	var writes []string
+	scope := pk.Types.Scope()
+	nFn := 0
+	for _, file := range pk.Syntax {
+		for _, d := range file.Decls {
+			fd, ok := d.(*ast.FuncDecl)
+			if !ok || fd.Body == nil || (fd.Recv == nil && fd.Name.Name == "init") {
+				continue
+			}
+			nFn++
+			isPkgVar := func(e ast.Expr) bool {
+				root := rootIdent(e)
+				if root == nil {
+					return false
+				}
+				v, ok := info.ObjectOf(root).(*types.Var)
+				return ok && v.Parent() == scope
+			}
+			ast.Inspect(fd.Body, func(n ast.Node) bool {
+				switch y := n.(type) {
+				case *ast.AssignStmt:
+					for _, l := range y.Lhs {
+						if isPkgVar(l) {
+							writes = append(writes, types.ExprString(l)+" assigned in "+funcName(fd)+" at "+prog.pos(y.Pos()))
+						}
+					}
+				case *ast.IncDecStmt:
+					if isPkgVar(y.X) {
+						writes = append(writes, types.ExprString(y.X)+" modified in "+funcName(fd)+" at "+prog.pos(y.Pos()))
+					}
+				case *ast.CallExpr:
+					if o := calleeOf(info, y); o != nil && o.Pkg() != nil && o.Pkg().Path() == "sync" {
+						switch o.Name() {
+						case "Store", "LoadOrStore", "Swap", "CompareAndSwap":
+							writes = append(writes, types.ExprString(y.Fun)+" in "+funcName(fd)+" at "+prog.pos(y.Pos()))
+						}
+					}
+				}
+				return true
+			})
+		}
+	}
+	if nFn < 5 {
+		r.Errorf("R18.11: only %d functions found in package extract", nFn)
+		return
+	}
+	r.Check(len(writes) == 0, "R18.11", "extract/no-state-between-extractions", "", fmt.Sprintf("%d functions, none writes package-level state", nFn),
+		"package extract keeps state between extractions: "+strings.Join(writes, "; ")+". What is remembered for one package is replayed for the next without its side effects (the imports a literal needs, the qualifier of the package being generated): the second generated file does not compile or binds another package's value")
 }
